@@ -24,9 +24,10 @@ type ParserData struct {
 
 	codeOverflow bool // 指令数超过上限(8192)，后续指令被丢弃，解析结束后需报错
 	codeStack    []struct {
-		code    []ByteCode
-		index   int
-		textPos int
+		code      []ByteCode
+		index     int
+		textPos   int
+		loopLayer int
 	}
 }
 
@@ -363,12 +364,16 @@ func (p *ParserData) AddAttrSet(objName string, attr string, isRaw bool) {
 
 func (p *ParserData) CodePush(textPos int) {
 	p.codeStack = append(p.codeStack, struct {
-		code    []ByteCode
-		index   int
-		textPos int
-	}{code: p.code, index: p.codeIndex, textPos: textPos})
+		code      []ByteCode
+		index     int
+		textPos   int
+		loopLayer int
+	}{code: p.code, index: p.codeIndex, textPos: textPos, loopLayer: p.loopLayer})
 	p.code = make([]ByteCode, 256)
 	p.codeIndex = 0
+	// 函数体/计算值是单独的一段代码，外层的循环对它不可见: 里面的 break/continue 不能跳到外层循环去
+	// (否则跳转偏移会按函数体内的下标写进外层代码，改掉一条无关的指令)
+	p.loopLayer = 0
 }
 
 func (p *ParserData) CodePop() ([]ByteCode, int, int) {
@@ -379,5 +384,6 @@ func (p *ParserData) CodePop() ([]ByteCode, int, int) {
 	p.codeStack = p.codeStack[:last]
 	p.code = info.code
 	p.codeIndex = info.index
+	p.loopLayer = info.loopLayer
 	return lastCode, lastIndex, info.textPos
 }
